@@ -8,6 +8,12 @@ Implementation oracles (S): the exact joint `prod_i lik_i * trio_pmf_i` is evalu
 implementation's own `log_likelihood_alleles_cached` and `trio_log_pmf`; from it the exact full
 conditional of one allele slot (vs the Gibbs vector), the detailed-balance residual of the MH vector,
 and the exact Metropolis ratio of the parental swap (vs `prob_accept`).
+Round 5 (input shapes): individuals from unbalanced / clonal / triploid / unreduced edges that are parents themselves, random pedigrees
+with per-individual ploidy and tau (`wp4.gen_structure`), indices permuted (children before parents), lambda = 1, single edges with
+error 0, int16 genotypes padded with -1 and the numba dict likelihood cache shared by all calls on a pedigree, one haplotype, no reads,
+members without reads, multi-allelic SNVs; the swap with the uniform draw forced to accept / reject / a random value (state and decision
+checked); `allele_step` (py_func with `random_choice` forced, and jitted with numba's generator seeded), `sample_step`, `compound_step`
+(visit order); the jitted `pair_allele_swap_step` on production types against the table of all index pairs.
 """
 from __future__ import annotations
 
@@ -55,7 +61,10 @@ RULE = ("cases: generated pedigrees (founder, clone founder, duo with unknown pa
         "ploidy 2x x 4x -> 3x, unbalanced tau (1,3)/(3,1)/(1,2), clonal edges) over 2..4 haplotypes, lambda {0,.1,.5} on tau = 2 edges, "
         "errors {.01,.1,.5,1} plus 0 on congruent states, frequencies flat/skewed, reads all-NaN or informative with zero-count rows; "
         "every sample x up to 2 allele slots for Gibbs and MH, up to 3 index pairs per parental pair for the swap. Non-trivial: the "
-        "target has a parent or a child in the pedigree and >= 2 haplotypes. Distinct by request line.")
+        "target has a parent or a child in the pedigree and >= 2 haplotypes. Distinct by request line. Round 5: templates whose unbalanced / "
+        "clonal / triploid / unreduced individuals are parents, random pedigrees with per-individual tau, permuted indices, lambda 1.0, "
+        "single zero-error edges, int16 / -1 states, dict cache, n_haps = 1, n_reads = 0, members without reads, multi-allelic SNVs; step "
+        "functions driven with forced choices; jitted swap.")
 
 ERRORS = [0.01, 0.1, 0.5, 1.0]
 LAMBDAS = [0.1, 0.5, 0.5, 1.0]
@@ -324,7 +333,8 @@ def run(tier, replay=None):
         "float64 log-space evaluation is compared at rel 1e-9 (oracles 1e-8), not proved",
         "the current state has positive joint probability (states the sampler can be in)",
         "irreducibility / convergence is not claimed; the theorems are detailed balance and conditional exactness",
-        "prob_accept of the swap is observed on .py_func (same source as the jitted function) with np.random forced",
+        "prob_accept of the swap is observed on .py_func (same source as the jitted function) with np.random forced; the jitted swap is "
+        "run with numba's generator seeded and must match one of the index pairs of the .py_func table",
         "the joint of the model (trio function trioPmfCode) is the joint of the C17 specification (joint_code_eq_spec, via "
         "C17.trioCode_eq_spec) for well-formed trios (TrioWF)",
         "well-formedness hypotheses of ped_gibbs_is_conditional (parent genotypes of the right ploidy over the known alleles, tau <= ploidy, "
@@ -589,6 +599,178 @@ def run(tier, replay=None):
             chk.violation("swap acceptance probability is not the Metropolis ratio of the joint pedigree posterior"
                           + (" (parents have different sets of counted reads)" if masks_differ else ""),
                           {**case, "exact": exact}, sig)
+    # ------------------------------------------------------------------ the step functions themselves (random choices forced / seeded)
+    from mchap.jitutils import seed_numba
+    rq = C.rng(PROP + ":steps")
+    n_sel = min(len(peds), {"warm": 2, "quick": 150, "thorough": 1500}[tier])
+    sel = rq.sample(range(len(peds)), n_sel) if peds else []
+
+    def step_args(P, s2, cache):
+        return dict(sample_genotypes=s2, sample_ploidy=P["ploidy"], sample_parents=P["parents"], sample_children=P["children"],
+                    gamete_tau=P["tau"], gamete_lambda=P["lam"], gamete_error=P["err"], sample_read_dists=P["reads"],
+                    sample_read_counts=P["counts"], haplotypes=P["haps"], log_frequencies=logf_of(P), llk_cache=cache, **scratch(P["mp"]))
+
+    def base_of(P):
+        return {"pedigree": P["name"], "parents": P["parents"].tolist(), "tau": P["tau"].tolist(), "lambda": P["lam"].tolist(),
+                "error": P["err"].tolist(), "genotypes": P["state"].tolist(), "haplotypes": P["haps"].tolist(),
+                "frequencies": P["freqs"].tolist(), "read_counts": P["counts"].tolist(),
+                "reads": [[[[None if math.isnan(x) else x for x in row] for row in rd] for rd in s_] for s_ in P["reads"].tolist()]}
+
+    for pi in sel:
+        P = peds[pi]
+        st = P["state"]
+        t = rq.randrange(P["N"]); k = rq.randrange(int(P["ploidy"][t])); step_type = rq.choice([0, 1])
+        f = mcmc.gibbs_probabilities if step_type == 0 else mcmc.metropolis_hastings_probabilities
+        vec, _ = call_probs(f, P, st, t, k)
+        case = {**base_of(P), "target": t, "slot": k, "step_type": step_type, "vector": vec}
+        chk.case(["allele_step", pi, t, k, step_type], P["n"] >= 2)
+        if not isinstance(vec_tag(vec), str):
+            support = [x for x in range(P["n"]) if vec[x] > 0]
+            forced = rq.choice(support) if support else 0
+            seen = []
+
+            def forced_choice(probabilities, _seen=seen, _c=forced):
+                _seen.append([float(x) for x in probabilities])
+                return _c
+
+            s2 = st.copy()
+            orig_rc = mcmc.random_choice
+            mcmc.random_choice = forced_choice
+            ok = True
+            try:
+                try:
+                    mcmc.allele_step.py_func(target_index=t, allele_index=k, step_type=step_type, **step_args(P, s2, P["cache"]))
+                except (AssertionError, ValueError, ZeroDivisionError) as e:
+                    ok = False
+                    chk.violation("allele_step raises where the probability vector of the same move is defined: %r" % (e,), case,
+                                  "C18/allele_step/raises")
+            finally:
+                mcmc.random_choice = orig_rc
+            chk.count("allele_step:forced"); chk.count("allele_step:type=%d" % step_type)
+            if ok:
+                want = st.copy(); want[t, k] = forced
+                if len(seen) != 1 or not same_vec(seen[0], vec):
+                    chk.violation("allele_step draws the new allele from a vector other than the Gibbs / MH vector of that slot",
+                                  {**case, "drawn_from": seen}, "C18/allele_step/vector")
+                if (s2 != want).any():
+                    chk.violation("allele_step changes something other than writing the drawn allele to slot [target, allele_index]",
+                                  {**case, "drawn": forced, "after": s2.tolist()}, "C18/allele_step/state")
+                else:
+                    chk.count("allele_step:moved" if forced != st[t, k] else "allele_step:stayed")
+            # the jitted function, numba's generator seeded: only that slot may change, and only to an allele of positive probability
+            s3 = st.copy()
+            seed_numba(rq.randrange(2 ** 31))
+            try:
+                mcmc.allele_step(target_index=t, allele_index=k, step_type=step_type, **step_args(P, s3, P["cache"]))
+                diff = np.argwhere(s3 != st)
+                if any((int(a), int(b)) != (t, k) for a, b in diff) or not (0 <= int(s3[t, k]) < P["n"]) or not (vec[int(s3[t, k])] > 0):
+                    chk.violation("jitted allele_step changed another slot or moved to an allele of probability zero",
+                                  {**case, "after": s3.tolist()}, "C18/allele_step/state")
+                chk.count("allele_step:jitted")
+            except (AssertionError, ValueError, ZeroDivisionError) as e:
+                chk.violation("jitted allele_step raises where the probability vector of the same move is defined: %r" % (e,), case,
+                              "C18/allele_step/raises")
+        # sample_step / compound_step: every slot of the target once, every individual once, in the shuffled order
+        pl = int(P["ploidy"][t])
+        perm = list(range(pl)); rq.shuffle(perm)
+        visits = []
+        orig_np, orig_as = mcmc.np, mcmc.allele_step
+        mcmc.np = _NP(orig_np, [], perm=np.array(perm))
+        mcmc.allele_step = lambda **kw: visits.append((int(kw["target_index"]), int(kw["allele_index"]), int(kw["step_type"])))
+        try:
+            s2 = st.copy()
+            mcmc.sample_step.py_func(target_index=t, step_type=step_type, **step_args(P, s2, P["cache"]))
+        finally:
+            mcmc.np, mcmc.allele_step = orig_np, orig_as
+        chk.count("sample_step")
+        if visits != [(t, x, step_type) for x in perm]:
+            chk.violation("sample_step does not update every allele slot of the target exactly once in the shuffled order",
+                          {**case, "shuffled_order": perm, "visited": visits}, "C18/sample_step/slots")
+        permN = list(range(P["N"])); rq.shuffle(permN)
+        visits = []
+        orig_np, orig_ss = mcmc.np, mcmc.sample_step
+        mcmc.np = _NP(orig_np, [], perm=np.array(permN))
+        mcmc.sample_step = lambda **kw: visits.append((int(kw["target_index"]), int(kw["step_type"])))
+        try:
+            s2 = st.copy()
+            mcmc.compound_step.py_func(step_type=step_type, **step_args(P, s2, P["cache"]))
+        finally:
+            mcmc.np, mcmc.sample_step = orig_np, orig_ss
+        chk.count("compound_step")
+        if visits != [(x, step_type) for x in permN]:
+            chk.violation("compound_step does not update every individual exactly once in the shuffled order",
+                          {**case, "shuffled_order": permN, "visited": visits}, "C18/compound_step/targets")
+        # ---- the jitted pair_allele_swap_step on production types (int16 genotypes padded with -1, dict cache)
+        st16 = np.where(st < 0, -1, st).astype(np.int16)
+        for j in range(min(2, len(P["pairs"]))):
+            p, q = int(P["pairs"][j, 0]), int(P["pairs"][j, 1])
+            plp, plq = int(P["ploidy"][p]), int(P["ploidy"][q])
+            if plp * plq > 36:
+                continue
+            table = {}
+            for ip in range(plp):
+                for iq in range(plq):
+                    s2 = st16.copy()
+                    orig_np = mcmc.np
+                    mcmc.np = _NP(orig_np, [ip, iq], 2.0)
+                    try:
+                        try:
+                            pa, _acc = mcmc.pair_allele_swap_step.py_func(p, q, P["blankets"][j], s2, P["ploidy"], P["parents"], P["tau"],
+                                                                          P["lam"], P["err"], P["reads"], P["counts"], P["haps"], logf_of(P),
+                                                                          None, **scratch(P["mp"]))
+                            table[(ip, iq)] = float(pa)
+                        except (AssertionError, ValueError, ZeroDivisionError):
+                            table[(ip, iq)] = "err"
+                    finally:
+                        mcmc.np = orig_np
+            if any(isinstance(v, str) for v in table.values()):
+                chk.count("swap-jitted:skipped-raises")
+                continue
+            s2 = st16.copy()
+            cache = typed_cache()
+            seed_numba(rq.randrange(2 ** 31))
+            case = {**base_of(P), "p": p, "q": q, "prob_accept_by_index_pair": {"%d,%d" % k_: v for k_, v in table.items()}}
+            chk.case(["swap-jitted", pi, j], P["n"] >= 2)
+            try:
+                pa, acc = mcmc.pair_allele_swap_step(p, q, P["blankets"][j], s2, P["ploidy"], P["parents"], P["tau"], P["lam"], P["err"],
+                                                     P["reads"], P["counts"], P["haps"], logf_of(P), cache, **scratch(P["mp"]))
+            except (AssertionError, ValueError, ZeroDivisionError) as e:
+                chk.violation("jitted pair_allele_swap_step raises although every index pair is evaluated without error: %r" % (e,), case,
+                              "C18/swap/jitted")
+                continue
+            pa = float(pa); acc = bool(acc)
+            chk.count("swap-jitted"); chk.count("swap-jitted:" + ("no-proposal" if math.isnan(pa) else "accepted" if acc else "rejected"))
+            changed = bool((s2 != st16).any())
+            good = False
+            if not changed:
+                # no proposal (equal alleles) or a rejection: the value must belong to some index pair; an acceptance that leaves
+                # the state as it was is only possible for a selfed pair exchanging within one genotype
+                good = any((math.isnan(v) and math.isnan(pa) and not acc) or
+                           (not math.isnan(v) and (not acc or p == q) and C.close(pa, v, rel=1e-9, abs_=1e-12)) for v in table.values())
+            elif acc:
+                for (ip, iq), v in table.items():
+                    want = st16.copy(); want[p, ip] = st16[q, iq]; want[q, iq] = st16[p, ip]
+                    if not math.isnan(v) and v > 0 and not (want != s2).any() and C.close(pa, v, rel=1e-9, abs_=1e-12):
+                        good = True
+                        break
+            if not good:
+                chk.violation("jitted pair_allele_swap_step (int16 genotypes, dict cache): the returned probability / decision / resulting "
+                              "genotypes match no pair of allele indices", {**case, "prob_accept": pa, "accept": acc, "after": s2.tolist()},
+                              "C18/swap/jitted")
+            # the cache it filled must hold the likelihoods of the genotypes it names
+            for (smp, gi), v in cache.items():
+                if smp < 0:
+                    continue
+                for cand in (st16, s2):
+                    g = np.sort(cand[smp, :int(P["ploidy"][smp])]).astype(np.int64)
+                    from mchap.jitutils import genotype_alleles_as_index
+                    if int(genotype_alleles_as_index(g)) == int(gi):
+                        tmp = cand.astype(np.int64)
+                        if not C.close(float(v), impl_llk(P, tmp, int(smp)), rel=1e-9, abs_=0.0) and not (v == impl_llk(P, tmp, int(smp))):
+                            chk.violation("the likelihood cache filled by the swap step holds a value that is not the likelihood of that "
+                                          "sample's genotype", {**case, "sample": int(smp), "genotype": g.tolist(), "cached": float(v)},
+                                          "C18/swap/cache")
+                        break
     sigs = {}
     for v in chk.violations:
         sigs[v["signature"]] = sigs.get(v["signature"], 0) + 1
